@@ -12,7 +12,9 @@ correspond: (XM) extracted model (Iso/Run.v) predicts, from the raw findings of 
             every file in every rotation of the sequence;
             (X1) the property itself on the real binary: findings projected on one file, file
             analysed alone vs every rotation of the sequence, -j1;
-            (X2) the same for the findings recorded per file in --cppcheck-build-dir.
+            (X2) the same for the findings recorded per file in --cppcheck-build-dir;
+            (XP) project path: generated compile_commands.json whose entries differ in -std / -D / -I,
+            every entry alone vs every rotation, -j1 and -j2, findings projected per file.
 search:     a disagreement is reduced to a pair (earlier file, file) and reported with sources.
 """
 import glob as _glob
@@ -366,6 +368,109 @@ def stream_x1(run, model, n_cases, trigger=False, stream="X1 alone-vs-rotations"
     return nleak
 
 
+# ------------------------------------------------------------------ project path (compile_commands.json)
+def gen_project(rng):
+    """entries that differ in -std / -D / -I; sources whose findings depend on them"""
+    import json as _json
+    k = rng.choice([2, 2, 3, 3, 4])
+    entries, files = [], {}
+    for i in range(k):
+        cpp = rng.random() < 0.7
+        name = "p%d.%s" % (i, "cpp" if cpp else "c")
+        guard = "#if __cplusplus >= 201103L" if cpp else "#if defined(__STDC_VERSION__) && __STDC_VERSION__ >= 199901L"
+        src = ['#include "cfg.h"' if rng.random() < 0.6 else "",
+               guard, "void s%d(void) { int *p = 0; *p = 1; }" % i, "#endif",
+               "#ifdef FLAGA", "int d%d(void) { int z = 0; return 1 / z; }" % i, "#endif",
+               "#if defined(FLAGB) && FLAGB == 2", "int b%d(void) { int a[2]; a[2] = 0; return a[0]; }" % i, "#endif",
+               "#if defined(HVAL) && HVAL == 2", "int a%d(void) { int a[2]; a[3] = 0; return a[0]; }" % i, "#endif",
+               "int u%d(void) { int x; return x; }" % i if rng.random() < 0.7 else ""]
+        files[name] = "\n".join(src) + "\n"
+        std = rng.choice([None, None, "c++03", "c++11", "c++17"] if cpp else [None, None, "c89", "c99", "c11"])
+        flags = []
+        if std:
+            flags.append("-std=" + std)
+        if rng.random() < 0.4:
+            flags.append("-DFLAGA")
+        if rng.random() < 0.4:
+            flags.append("-DFLAGB=%d" % rng.choice([1, 2]))
+        inc = rng.choice([None, "inc1", "inc2"])
+        if inc:
+            flags.append("-I" + inc)
+        entries.append({"file": name, "flags": flags, "std": std, "cpp": cpp})
+    return entries, files
+
+
+def gen_project_biased(rng):
+    """half of the projects: two entries of one language, the first with the oldest standard, the second
+    with none (the constellation in which a settings object carried over between entries shows)"""
+    while True:
+        entries, files = gen_project(rng)
+        if rng.random() < 0.5:
+            return entries, files
+        for lang in (True, False):
+            es = [e for e in entries if e["cpp"] == lang]
+            if len(es) >= 2:
+                old = "c++03" if lang else "c89"
+                es[0]["flags"] = ["-std=" + old] + [f for f in es[0]["flags"] if not f.startswith("-std=")]
+                es[0]["std"] = old
+                es[1]["flags"] = [f for f in es[1]["flags"] if not f.startswith("-std=")]
+                es[1]["std"] = None
+                return entries, files
+
+
+def write_project(d, entries, files, order, fname):
+    import json as _json
+    for n, s_ in files.items():
+        open(os.path.join(d, n), "w").write(s_)
+    for j in (1, 2):
+        os.makedirs(os.path.join(d, "inc%d" % j), exist_ok=True)
+        open(os.path.join(d, "inc%d" % j, "cfg.h"), "w").write("#define HVAL %d\n" % j)
+    byname = {e["file"]: e for e in entries}
+    db = [{"directory": d, "command": "%s %s -c %s" % ("g++" if byname[n]["cpp"] else "gcc", " ".join(byname[n]["flags"]), n), "file": n} for n in order]
+    open(os.path.join(d, fname), "w").write(_json.dumps(db, indent=1))
+
+
+def proj_base(findings, name):
+    return sorted((os.path.basename(f[0]),) + f[1:] for f in findings if os.path.basename(f[0]) == name)
+
+
+def stream_xp(run, n_cases):
+    rng = run.rng
+    stream = "XP project entries alone-vs-rotations"
+    for ci in range(n_cases):
+        entries, files = gen_project_biased(rng)
+        names = [e["file"] for e in entries]
+        d = tempfile.mkdtemp(prefix="c17p_")
+        try:
+            alone = {}
+            for n in names:
+                write_project(d, entries, files, [n], "alone.json")
+                alone[n] = proj_base(run_cppcheck(d, ["--project=alone.json"])[0], n)
+            for order in rotations(names):
+                write_project(d, entries, files, order, "cc.json")
+                for jobs in ("-j1", "-j2"):
+                    seq, _ = run_cppcheck(d, ["--project=cc.json", jobs])
+                    for pos, n in enumerate(order):
+                        s_ = proj_base(seq, n)
+                        e = [x for x in entries if x["file"] == n][0]
+                        stds_before = sorted({x["std"] or "-" for x in entries if x["file"] in order[:pos] and x["cpp"] == e["cpp"]})
+                        run.count(stream, None, nontrivial=(tuple(order), n, jobs, tuple(alone[n])) if alone[n] else None,
+                                  bucket="%s,std:%s,before:%s" % (jobs, e["std"] or "-", "/".join(stds_before) or "none"))
+                        if s_ != alone[n]:
+                            run.stream(stream)["disagreements"] += 1
+                            key = "xp:%s" % vlib.hashlib.sha1(repr((order, n, jobs, s_, alone[n])).encode()).hexdigest()[:10]
+                            if jobs == "-j1" and not e["std"] and any(x != "-" for x in stds_before):
+                                key = "project-entry-inherits-earlier-std"
+                            run.violation(key, "findings of project entry %s differ: alone %d, in project order %s (%s) %d"
+                                          % (n, len(alone[n]), order, jobs, len(s_)),
+                                          {"stream": stream, "file": n, "order": order, "jobs": jobs, "alone": alone[n], "in_project": s_,
+                                           "entries": [{"file": x["file"], "flags": x["flags"]} for x in entries], "sources": files,
+                                           "how": "compile_commands.json with the entries in the given order (command: g++/gcc <flags> -c <file>); "
+                                                  "cppcheck -q --project=cc.json %s vs a compile_commands.json with the one entry" % jobs})
+        finally:
+            shutil.rmtree(d, ignore_errors=True)
+
+
 def recorded(bd, d):
     """{source file: sorted (id, file, line) recorded in its analyzer info}"""
     res = {}
@@ -522,7 +627,7 @@ def check(run, replay):
     vlib.ensure_repo_build()
     try:
         pts = resets.main(vlib.REPO, vlib.VERIF)
-        run.extra["reset_points"] = {"check": pts[0], "checkInternal": pts[1]}
+        run.extra["reset_points"] = {"check": pts[0], "checkInternal": pts[1], "check_FileSettings": pts[2]}
         t_ok = True
     except resets.TranslateError as e:
         t_ok = False
@@ -541,6 +646,7 @@ def check(run, replay):
     stream_x1(run, model, 14 if quick else 250)
     nl = stream_x1(run, model, 6 if quick else 60, trigger=True, stream="X1k same macro names across files")
     nk = stream_x2(run, 5 if quick else 60)
+    stream_xp(run, 8 if quick else 120)
     run.extra["known_leak_cases"] = {"macro": nl, "cached": nk}
 
 
